@@ -605,7 +605,14 @@ func Run(r *fw.Run) {
 	}
 	var stats []seedStat
 	var sampleHist []string
-	for si, seed := range sd {
+	// the seed of the second alphabet is searched first (it is the cheapest: should the machine be so loaded that the budget
+	// ends the run, the cut falls on the deeper levels of the big alphabet); seed numbers stay those of the list
+	order := []int{len(sd) - 1}
+	for i := 0; i < len(sd)-1; i++ {
+		order = append(order, i)
+	}
+	for _, si := range order {
+		seed := sd[si]
 		t0 := time.Now()
 		st := seedStat{Seed: si}
 		seen := map[[20]byte]bool{}
